@@ -841,30 +841,30 @@ func discoveryCacheKeyRule(c *Check, rule string) {
 		}
 		okKey, nAcc := urlParam != nil, 0
 		for _, gf := range deepFuncs(gw, 2) {
-		if pkgPathOf(gf) != pkgOIDC {
-			continue
-		}
-		for _, b := range gf.Blocks {
-			for _, ins := range b.Instrs {
-				var idx, mp ssa.Value
-				switch x := ins.(type) {
-				case *ssa.Lookup:
-					idx, mp = x.Index, x.X
-				case *ssa.MapUpdate:
-					idx, mp = x.Key, x.Map
-				}
-				if idx == nil {
-					continue
-				}
-				if cl, _ := classOfMap(mp); !strings.HasPrefix(cl, "global:") {
-					continue
-				}
-				nAcc++
-				if !originsAre(P, idx, urlParam, 2) {
-					okKey = false
+			if pkgPathOf(gf) != pkgOIDC {
+				continue
+			}
+			for _, b := range gf.Blocks {
+				for _, ins := range b.Instrs {
+					var idx, mp ssa.Value
+					switch x := ins.(type) {
+					case *ssa.Lookup:
+						idx, mp = x.Index, x.X
+					case *ssa.MapUpdate:
+						idx, mp = x.Key, x.Map
+					}
+					if idx == nil {
+						continue
+					}
+					if cl, _ := classOfMap(mp); !strings.HasPrefix(cl, "global:") {
+						continue
+					}
+					nAcc++
+					if !originsAre(P, idx, urlParam, 2) {
+						okKey = false
+					}
 				}
 			}
-		}
 		}
 		fetchSame := false
 		for _, ci := range callsToDeep(gw, 2, "net/http.Client.Get") {
